@@ -138,7 +138,7 @@ def build_cases(ctx, recs):
                 elif not e["cov"]:
                     kind, rlo, rhi = "no-covariance", 0, rk
                 else:
-                    kind, rlo, rhi = ("beyond-rank" if npc > rk else "within-rank"), 1, rk
+                    kind, rlo, rhi = ("nlv-beyond-x-rank" if npc > rk else "nlv-within-x-rank"), 1, rk
                 add("PLS", kind, e, req, npc, rhi, rlo, noise, ys=list(e["y"]))
             # two responses: y and its reverse (collinear / constant pairs included)
             y2 = list(reversed(e["y"]))
@@ -153,7 +153,7 @@ def build_cases(ctx, recs):
                     # null although the other column may have some - whether a latent variable "exists" is then not decided here
                     kind, rlo, rhi = "no-covariance", 0, rk
                 else:
-                    kind, rlo, rhi = ("beyond-rank" if npc > rk else "within-rank"), 1, rk
+                    kind, rlo, rhi = ("nlv-beyond-x-rank" if npc > rk else "nlv-within-x-rank"), 1, rk
                 ys = []
                 for i in range(nr):
                     ys += [e["y"][i], y2[i]]
@@ -175,7 +175,7 @@ def case_line(c):
     return " ".join(str(v) for v in t)
 
 
-NONTRIVIAL = lambda c: c["kind"] not in ("within-rank", "regular")
+NONTRIVIAL = lambda c: c["kind"] not in ("within-rank", "regular", "nlv-within-x-rank")
 
 
 # ---------------------------------------------------------------- (C)
